@@ -268,7 +268,8 @@ register('C20', 'proof',
          not_decided=['composition: HostStatisticsInstance.push_statistics still uses the ASSUMED frame contract of '
                       '_push_timed_stats (contracts/c20.py); the body of _push_timed_stats is verified on its own '
                       '(contracts/c20_timed.py, group statsmodel_timed: alignment / bound of every kept entity, vanished '
-                      'entities dropped, new entities start with one point, frame) under the precondition that the lists '
+                      'entities dropped, new entities start with one point, frame; decision facet for the first sight of an entity: '
+                      'contracts/c20_timed_new.py) under the precondition that the lists '
                       'reachable from the history dictionary are distinct objects and that a known entity gets as many '
                       'values as it has value series - push_statistics is not shown to establish them at its three calls',
                       'ProcStatisticsHolder.push_statistics / ProcStatisticsCompiler / HostStatisticsCompiler (pid 0 => entry '
